@@ -19,6 +19,7 @@ contract(
     cases=BLOCK_CASES,
     requires=['ValidBlock(block, nb_series)', 'nb_series <= 2**26'],
     ensures=['result == Len(block, nb_series)'],
+    returns='int',
     loops={0: dict(head='for ri in range(block_rb, block_re)',
                    inv=['length == LenRowsTo(block, nb_series, ri)'],
                    variant='block_re - ri')},
@@ -80,5 +81,70 @@ contract(
     },
     lemmas=['LenFullClosed', 'LenRectClosed', 'RowsBefore'],
     theories=('layout',),
+    props=('C06',),
+)
+
+
+# ---------------------------------------------------------------------------------------------
+import specs.dtwspec  # noqa: E402,F401
+
+SETTINGS_REC = ('rec', 'dtw.DTWSettings', dict(
+    window='opt:int', use_pruning='bool', max_dist='opt:val', max_step='opt:val', max_length_diff='opt:int',
+    penalty='opt:val', psi='opt:int', inner_dist=('const', 'squared euclidean'), use_ndim='bool',
+    use_c=('const', False)))
+
+contract(
+    'dtw.distance',
+    params={'s1': 'series', 's2': 'series', 'only_ub': 'bool', 'kwargs': {}},
+    requires=['length(s1) >= 1', 'length(s2) >= 1'],
+    ensures=['result == DTWP(s1, s2, only_ub, kwargs)'],
+    returns='val',
+    trusted=True,
+    props=('C01',),
+    note='assumed here: dtw.distance is a function of the series contents and its options and leaves '
+         'its arguments untouched; its functional contract is C01.',
+)
+
+_PY_PAIRS = ('forall(lambda r2, c2: implies(T2(r2, c2) and Sel(block0, length(s), r2, c2) and {cond}, '
+             'dists[Rank(block0, length(s), r2, c2)] == DTWP(s[r2], s[c2], False, kw)))')
+
+contract(
+    'dtw.distance_matrix_python',
+    params={'s': 'series_collection', 'block': 'none', 'show_progress': ('const', False), 'settings': SETTINGS_REC},
+    cases=[dict(label=c['label'] + '/' + i, params=dict(c['params'], settings=dict_settings))
+           for c in BLOCK_CASES
+           for i, dict_settings in (('sqeuclid', SETTINGS_REC),
+                                    ('euclid', ('rec', 'dtw.DTWSettings', dict(SETTINGS_REC[2], inner_dist=('const', 'euclidean')))),
+                                    ('psi4', ('rec', 'dtw.DTWSettings', dict(SETTINGS_REC[2], psi=('tuple', 'int', 'int', 'int', 'int')))))],
+    bind={'block0': 'block', 'kw': 'settings.kwargs()'},
+    requires=['ValidBlock(block, length(s))', '1 <= length(s) <= 2**26',
+              'forall(lambda k: implies(0 <= k < length(s), length(s[k]) >= 1))'],
+    ensures=['length(result) == Len(block0, length(s))',
+             _PY_PAIRS.replace('dists[', 'result[').format(cond='True')],
+    kinds={'dists': 'val'},
+    loops={
+        0: dict(head='for r in it_r',
+                inv=['idx == LenRowsTo(block0, length(s), r)', 'length(dists) == Len(block0, length(s))',
+                     _PY_PAIRS.format(cond='r2 < r')],
+                variant='block[0][1] - r'),
+        1: dict(head='for c in it_c',
+                inv=['idx == LenRowsTo(block0, length(s), r) + (c - CBrow(block0, length(s), r))',
+                     'c >= CBrow(block0, length(s), r)', 'length(dists) == Len(block0, length(s))',
+                     _PY_PAIRS.format(cond='(r2 < r or (r2 == r and c2 < c))')],
+                variant='length(s) - c + 1 + (CBrow(block0, length(s), r) - c if c < CBrow(block0, length(s), r) else 0)'),
+    },
+    theories=('layout',),
+    lemmas=['LenFullClosed', 'LenRectClosed', 'RowsBefore', 'LenRowsNonneg'],
+    props=('C06', 'C20'),
+)
+
+contract(
+    'dtw.distance_array_index',
+    params={'a': 'nat', 'b': 'nat', 'nb_series': 'nat'},
+    requires=['a < nb_series', 'b < nb_series', 'a != b'],
+    ensures=['result == Rank(None, nb_series, mini(a, b), maxi(a, b))'],
+    loops={0: dict(head='for r in range(a)', inv=['idx == LenRowsTo(None, nb_series, r)', 'a < b'], variant='a - r')},
+    theories=('layout',),
+    lemmas=['LenFullClosed'],
     props=('C06',),
 )
